@@ -51,6 +51,11 @@ pub struct GenOpts {
     pub sign_ext:   bool,
     /// Allow `Spin` loops (only for metered runs with a finite budget).
     pub allow_spin: bool,
+    /// No writes to locals inside control constructs that are nested in an expression (i.e. while
+    /// operands may sit on the stack). Programs of this shape stay clear of the engine's known
+    /// conformance defects around lazily preserved locals (C01, F1-F3), which the cost-schedule
+    /// twin comparison needs: both programs must take the same path.
+    pub calm_locals: bool,
 }
 
 struct FCtx<'a> {
@@ -70,6 +75,8 @@ struct FCtx<'a> {
     mem_mask: i32,
     /// Loop counter locals: never read or written by generated code.
     reserved: Vec<u32>,
+    /// > 0 while generating inside an `Expr::If` / `Expr::Block`
+    in_expr_ctrl: u32,
 }
 
 const I32_BIN: [u8; 15] = [0x6a, 0x6b, 0x6c, 0x6d, 0x6e, 0x6f, 0x70, 0x71, 0x72, 0x73, 0x74, 0x75, 0x76, 0x77, 0x78];
@@ -78,6 +85,8 @@ const I64_BIN: [u8; 15] = [0x7c, 0x7d, 0x7e, 0x7f, 0x80, 0x81, 0x82, 0x83, 0x84,
 const I64_CMP: [u8; 10] = [0x51, 0x52, 0x53, 0x54, 0x55, 0x56, 0x57, 0x58, 0x59, 0x5a];
 
 impl FCtx<'_> {
+    fn no_local_writes(&self) -> bool { self.opts.calm_locals && self.in_expr_ctrl > 0 }
+
     fn local_of(&mut self, ty: Ty) -> Option<u32> {
         let c: Vec<u32> = self
             .locals
@@ -285,16 +294,19 @@ impl FCtx<'_> {
                 let c = self.expr(Ty::I32, d + 1);
                 // a value-carrying label is never a target of generated branches
                 self.labels.push(true);
+                self.in_expr_ctrl += 1;
                 let ts = self.stmts(d + 1, 2);
                 let te = self.expr(ty, d + 1);
                 let es = self.stmts(d + 1, 2);
                 let ee = self.expr(ty, d + 1);
+                self.in_expr_ctrl -= 1;
                 self.labels.pop();
                 Expr::If(ty, Box::new(c), ts, Box::new(te), es, Box::new(ee))
             }
             20 => {
                 // a value-carrying label is never a target of generated branches
                 self.labels.push(true);
+                self.in_expr_ctrl += 1;
                 let body = self.stmts(d + 1, 2);
                 let early = if self.rng.coin() {
                     Some((Box::new(self.expr(ty, d + 1)), Box::new(self.expr(Ty::I32, d + 1))))
@@ -302,6 +314,7 @@ impl FCtx<'_> {
                     None
                 };
                 let res = self.expr(ty, d + 1);
+                self.in_expr_ctrl -= 1;
                 self.labels.pop();
                 Expr::Block(ty, body, early, Box::new(res))
             }
@@ -322,7 +335,9 @@ impl FCtx<'_> {
                 Ty::I64 => self.konst(ty),
             },
             _ => match self.local_of(ty) {
-                Some(l) if (l as usize) >= self.nparams || self.rng.coin() => Expr::LocalTee(l, Box::new(self.expr(ty, d + 1))),
+                Some(l) if !self.no_local_writes() && ((l as usize) >= self.nparams || self.rng.coin()) => {
+                    Expr::LocalTee(l, Box::new(self.expr(ty, d + 1)))
+                }
                 _ => self.konst(ty),
             },
         }
@@ -347,15 +362,16 @@ impl FCtx<'_> {
         self.budget -= 1;
         if d >= 4 || self.budget <= 0 {
             return match self.local_of(Ty::I32) {
-                Some(l) => Stmt::LocalSet(l, Expr::I32(self.rng.below(100) as i32)),
-                None => Stmt::Nop,
+                Some(l) if !self.no_local_writes() => Stmt::LocalSet(l, Expr::I32(self.rng.below(100) as i32)),
+                _ => Stmt::Nop,
             };
         }
         match self.rng.below(22) {
             0 | 1 | 2 => {
                 let ty = if self.rng.coin() { Ty::I32 } else { Ty::I64 };
                 match self.local_of(ty) {
-                    Some(l) => Stmt::LocalSet(l, self.expr(ty, d + 1)),
+                    Some(l) if !self.no_local_writes() => Stmt::LocalSet(l, self.expr(ty, d + 1)),
+                    Some(_) => Stmt::Drop(self.expr(ty, d + 1)),
                     None => Stmt::Nop,
                 }
             }
@@ -419,6 +435,7 @@ impl FCtx<'_> {
                 Some(t) => Stmt::BrIf(t, self.expr(Ty::I32, d + 1)),
                 None => Stmt::Nop,
             },
+            17 if self.no_local_writes() => Stmt::Nop,
             17 => {
                 // counted loop with its own fresh counter local
                 let counter = self.locals.len() as u32;
@@ -453,8 +470,8 @@ impl FCtx<'_> {
                     for _ in 0..self.rng.urange(0, 3) {
                         body.push(match self.local_of(Ty::I32) {
                             Some(l) if self.rng.coin() => Stmt::Drop(Expr::LocalGet(l)),
-                            Some(l) => Stmt::LocalSet(l, Expr::I32(7)),
-                            None => Stmt::Drop(Expr::I32(1)),
+                            Some(l) if !self.no_local_writes() => Stmt::LocalSet(l, Expr::I32(7)),
+                            _ => Stmt::Drop(Expr::I32(1)),
                         });
                     }
                     Stmt::Spin(body)
@@ -637,6 +654,7 @@ pub fn gen_module(rng: &mut Rng, opts: GenOpts) -> Module {
             table_sz: if fi == 0 || all_hosts { table.len() as u32 } else { 0 },
             mem_mask: 0xff8,
             reserved: Vec::new(),
+            in_expr_ctrl: 0,
         };
         let body = ctx.stmts(0, if fi == 0 { 8 } else { 4 });
         let ret = sig.result.map(|t| ctx.expr(t, 1));
@@ -757,4 +775,40 @@ pub fn writes_counter_check(m: &Module) -> bool {
         }
     }
     m.funcs.iter().all(|f| f.body.iter().all(chk))
+}
+
+/// Structural check for `GenOpts::calm_locals`: no local is written inside a control construct
+/// that is nested in an expression.
+pub fn calm_locals(m: &Module) -> bool {
+    fn e_ok(e: &Expr, nested: bool) -> bool {
+        match e {
+            Expr::I32(_) | Expr::I64(_) | Expr::LocalGet(_) | Expr::GlobalGet(_) | Expr::MemorySize => true,
+            Expr::LocalTee(_, x) => !nested && e_ok(x, nested),
+            Expr::Un(_, a) | Expr::Load(_, _, a) | Expr::MemoryGrow(a) => e_ok(a, nested),
+            Expr::Bin(_, a, b) => e_ok(a, nested) && e_ok(b, nested),
+            Expr::Call(_, v) | Expr::Host(_, v) => v.iter().all(|x| e_ok(x, nested)),
+            Expr::CallIndirect(_, i, v) => e_ok(i, nested) && v.iter().all(|x| e_ok(x, nested)),
+            Expr::If(_, c, ts, te, es, ee) => e_ok(c, nested) && ss_ok(ts, true) && e_ok(te, true) && ss_ok(es, true) && e_ok(ee, true),
+            Expr::Block(_, b, early, r) => {
+                ss_ok(b, true) && early.as_ref().map_or(true, |(v, c)| e_ok(v, true) && e_ok(c, true)) && e_ok(r, true)
+            }
+            Expr::Select(a, b, c) => e_ok(a, nested) && e_ok(b, nested) && e_ok(c, nested),
+        }
+    }
+    fn ss_ok(ss: &[Stmt], nested: bool) -> bool { ss.iter().all(|s| s_ok(s, nested)) }
+    fn s_ok(s: &Stmt, nested: bool) -> bool {
+        match s {
+            Stmt::LocalSet(_, e) => !nested && e_ok(e, nested),
+            Stmt::GlobalSet(_, e) | Stmt::Drop(e) | Stmt::BrIf(_, e) => e_ok(e, nested),
+            Stmt::Store(_, _, a, v) => e_ok(a, nested) && e_ok(v, nested),
+            Stmt::Call(_, v) | Stmt::Host(_, v) => v.iter().all(|x| e_ok(x, nested)),
+            Stmt::If(c, t, e) => e_ok(c, nested) && ss_ok(t, nested) && ss_ok(e, nested),
+            Stmt::Block(b) | Stmt::Spin(b) => ss_ok(b, nested),
+            Stmt::Loop(_, _, b) => !nested && ss_ok(b, nested),
+            Stmt::Switch(i, arms) => e_ok(i, nested) && arms.iter().all(|a| ss_ok(a, nested)),
+            Stmt::Return(e) => e.as_ref().map_or(true, |e| e_ok(e, nested)),
+            Stmt::Br(_) | Stmt::Unreachable | Stmt::Nop => true,
+        }
+    }
+    m.funcs.iter().all(|f| ss_ok(&f.body, false) && f.ret.as_ref().map_or(true, |e| e_ok(e, false)))
 }
